@@ -415,6 +415,9 @@ func c14(r *ev.Run, replay string) {
 		c14RacePass()
 		return
 	}
+	if !requireScheduler() {
+		return
+	}
 	// sequential references
 	ref := map[string]string{}
 	for _, o := range c14Alphabet {
